@@ -785,10 +785,23 @@ func ruleBoundsOffsets(c *eng.Ctx) {
 		if call == nil {
 			continue
 		}
+		// the bounds come back as a tuple (minRow, maxRow, minCol, maxCol) or as a struct with fields of those names
+		_, isTuple := call.Type().(*types.Tuple)
+		fieldOf := map[int]string{0: "minrow", 2: "mincol"}
 		dependsOn := func(v ssa.Value, idx int) bool {
 			for w := range eng.Slice(v, nil) {
 				if ex, ok := w.(*ssa.Extract); ok && ex.Tuple == ssa.Value(call) && ex.Index == idx {
 					return true
+				}
+				if !isTuple {
+					if fr, ok := eng.AsField(w); ok && strings.EqualFold(fr.Field, fieldOf[idx]) {
+						if f, ok := w.(*ssa.Field); ok && f.X == ssa.Value(call) {
+							return true
+						}
+						if fr.Struct == strings.TrimPrefix(eng.TypeName(call.Type()), "*") {
+							return true
+						}
+					}
 				}
 			}
 			return false
